@@ -318,7 +318,7 @@ func genC15(r *Rand, tier string, i int) *h.Scenario {
 	p.PExt = 0.5
 	p.PTerminal = 0.5
 	p.PTightTerm = 0.35 // an error in a bar that has no line of its own counts all the same
-	p.PQueueAfter = 0
+	p.PQueueAfter = 0.1 // wave 15: a fault in the cycle that hands a place over
 	p.PDelay = 0
 	p.PLate = 0
 	p.PNotifier = 0.5
